@@ -13,37 +13,38 @@ StrictlyInc(s) == \A k \in 1..(Len(s) - 1) : s[k] < s[k + 1]
 \* |t1 - (t2 + offset)| for the i-th stamp of the first and the j-th of the second input
 Dist(A, B, off, i, j) == Abs(A[i] - (B[j] + off))
 
-NearestB(A, B, off, i) ==      \* nearest counterparts (in B) of A[i]; a set because of ties
-  {j \in 1..Len(B) : \A k \in 1..Len(B) : Dist(A, B, off, i, j) <= Dist(A, B, off, i, k)}
-NearestA(A, B, off, j) ==
-  {i \in 1..Len(A) : \A k \in 1..Len(A) : Dist(A, B, off, i, j) <= Dist(A, B, off, k, j)}
+\* Nearest counterparts; a set because of ties.  The stamp vectors are strictly increasing (the property quantifies over such
+\* vectors), so the nearest counterparts of a value v are among the last stamp <= v and the first stamp > v: linear, not quadratic.
+CountLE(S, v) == Cardinality({j \in 1..Len(S) : S[j] <= v})
+NearestIn(S, v) == LET p == CountLE(S, v)
+                       cand == {p, p + 1} \cap (1..Len(S))
+                   IN {j \in cand : \A k \in cand : Abs(S[j] - v) <= Abs(S[k] - v)}
+NearestB(A, B, off, i) == NearestIn(B, A[i] - off)      \* nearest counterparts (in B) of A[i]:  |A[i] - (B[j] + off)| minimal
+NearestA(A, B, off, j) == NearestIn(A, B[j] + off)
 
 AnyWithin(A, B, md, off) ==
-  \E i \in 1..Len(A), j \in 1..Len(B) : Dist(A, B, off, i, j) <= md
+  \E i \in 1..Len(A) : \E j \in NearestB(A, B, off, i) : Dist(A, B, off, i, j) <= md
 
 \* which input may play "the trajectory with fewer poses" (either one if equally long)
 ShortSides(A, B) == IF Len(A) < Len(B) THEN {"A"} ELSE IF Len(B) < Len(A) THEN {"B"} ELSE {"A", "B"}
 
 \* every produced pair is (pose of the short input, one of its nearest counterparts) ...
-PairsAreNearest(A, B, off, ia, ib, side) ==
-  \A k \in 1..Len(ia) :
-     IF side = "A" THEN ib[k] \in NearestB(A, B, off, ia[k])
-                   ELSE ia[k] \in NearestA(A, B, off, ib[k])
+NB(A, B, off) == [i \in 1..Len(A) |-> NearestB(A, B, off, i)]      \* evaluated once per verdict (LET in Verdict)
+NA(A, B, off) == [j \in 1..Len(B) |-> NearestA(A, B, off, j)]
+PairsAreNearest(nb, na, ia, ib, side) ==
+  \A k \in 1..Len(ia) : IF side = "A" THEN ib[k] \in nb[ia[k]] ELSE ia[k] \in na[ib[k]]
 
 \* ... and every short-side pose whose nearest counterpart is within max_diff and is not
 \* contested by another short-side pose is paired.
-Uncontested(A, B, off, side, s) ==
-  IF side = "A"
-  THEN \A j \in NearestB(A, B, off, s) : \A s2 \in (1..Len(A)) \ {s} : j \notin NearestB(A, B, off, s2)
-  ELSE \A i \in NearestA(A, B, off, s) : \A s2 \in (1..Len(B)) \ {s} : i \notin NearestA(A, B, off, s2)
-NearestWithin(A, B, md, off, side, s) ==
-  IF side = "A" THEN \E j \in NearestB(A, B, off, s) : Dist(A, B, off, s, j) <= md
-                ELSE \E i \in NearestA(A, B, off, s) : Dist(A, B, off, i, s) <= md
-MandatoryPaired(A, B, md, off, ia, ib, side) ==
-  LET n == IF side = "A" THEN Len(A) ELSE Len(B)
+\* owners[x]: how many short-side poses have x among their nearest counterparts
+Owners(near, nlong) == [x \in 1..nlong |-> Cardinality({s \in DOMAIN near : x \in near[s]})]
+MandatoryPaired(A, B, md, off, nb, na, ia, ib, side) ==
+  LET near == IF side = "A" THEN nb ELSE na
+      nlong == IF side = "A" THEN Len(B) ELSE Len(A)
+      own == Owners(near, nlong)
       used == IF side = "A" THEN Range(ia) ELSE Range(ib)
-  IN \A s \in 1..n :
-        (NearestWithin(A, B, md, off, side, s) /\ Uncontested(A, B, off, side, s)) => s \in used
+      within(s) == \E x \in near[s] : (IF side = "A" THEN Dist(A, B, off, s, x) ELSE Dist(A, B, off, x, s)) <= md
+  IN \A s \in DOMAIN near : (within(s) /\ \A x \in near[s] : own[x] = 1) => s \in used
 
 \* o: observed outcome
 \*   [kind |-> "raise", exc |-> "SyncException"]
@@ -58,7 +59,7 @@ Verdict(A, B, md, off, o) ==
      ELSE IF ~o.unchanged THEN "InputsModified"
      ELSE "ok"
   ELSE IF o.kind # "ok" THEN "UnknownOutcome"
-  ELSE LET ia == Col(o.a, 1)  ib == Col(o.b, 1) IN
+  ELSE LET ia == Col(o.a, 1)  ib == Col(o.b, 1)  nb == NB(A, B, off)  na == NA(A, B, off) IN
      IF Len(o.a) # Len(o.b) THEN "UnequalLengths"
      ELSE IF Len(o.a) = 0 THEN "EmptyResultInsteadOfError"
      ELSE IF \E k \in DOMAIN o.a : o.a[k][1] = 0 \/ o.b[k][1] = 0 THEN "StampNotFromInput"
@@ -66,9 +67,9 @@ Verdict(A, B, md, off, o) ==
      ELSE IF ~(StrictlyInc(ia) /\ StrictlyInc(ib)) THEN "NotIncreasingOrPoseUsedTwice"
      ELSE IF \E k \in DOMAIN ia : Dist(A, B, off, ia[k], ib[k]) > md THEN "PairBeyondMaxDiff"
      ELSE IF ~o.unchanged THEN "InputsModified"
-     ELSE IF ~\E side \in ShortSides(A, B) : PairsAreNearest(A, B, off, ia, ib, side) THEN "NotNearestCounterpart"
+     ELSE IF ~\E side \in ShortSides(A, B) : PairsAreNearest(nb, na, ia, ib, side) THEN "NotNearestCounterpart"
      ELSE IF ~\E side \in ShortSides(A, B) :
-                 /\ PairsAreNearest(A, B, off, ia, ib, side)
-                 /\ MandatoryPaired(A, B, md, off, ia, ib, side) THEN "MissingMandatoryPair"
+                 /\ PairsAreNearest(nb, na, ia, ib, side)
+                 /\ MandatoryPaired(A, B, md, off, nb, na, ia, ib, side) THEN "MissingMandatoryPair"
      ELSE "ok"
 ==============================================================================
